@@ -27,7 +27,9 @@
  * What the oracle demands:
  *   make   rc 0 and the complete NUL-terminated address inside `capacity`, or rc -1 with
  *          ENAMETOOLONG/EINVAL; success whenever the address fits; never a prefix as success.
- *   parse  three-valued reference recogniser: must-accept / must-reject / either.  must-accept
+ *   parse  three-valued reference recogniser: must-accept / must-reject / either.  An address is
+ *          a single token: space \t \n \v \f \r anywhere in it is must-reject for every entry point
+ *          and for xcm_addr_is_valid.  must-accept
  *          results must carry exactly the model's components.  xcm_addr_is_valid must agree with
  *          the typed parsers; the compat parsers must agree with the primary ones.
  *
@@ -607,12 +609,53 @@ static int tp_by_name(const char *s, size_t n, bool *case_variant)
     return -1;
 }
 
+/* White space.  An address string is a single token: xcm.h's "Address Syntax" gives every form as
+ * an unbroken token and none of them contains a blank or a line break, so the six ASCII
+ * white-space characters (space \t \n \v \f \r) ANYWHERE in the string -- transport name, host,
+ * port, UX/UXF name -- put it outside every documented form: must-reject for every parser entry
+ * point and for xcm_addr_is_valid.  Returns NULL if there is none, else the tag
+ * "whitespace=<which>/field=<where>" of the first one; tp: the transport whose syntax names the
+ * field (< 0: only "proto" / "address" are told apart). */
+static const char *m_whitespace(int tp, const char *s, size_t n)
+{
+    static const char WS[] = " \t\n\v\f\r";
+    static const char *const WSN[6] = { "space", "tab", "lf", "vt", "ff", "cr" };
+    static const char *const FLD[5] = { "proto", "address", "host", "port", "ux-name" };
+    static char tags[6][5][48];
+    for (size_t i = 0; i < n; i++) {
+        const char *w = s[i] ? memchr(WS, s[i], 6) : NULL;
+        if (!w)
+            continue;
+        const char *c = memchr(s, ':', n);
+        int fld;
+        if (!c || i < (size_t)(c - s))
+            fld = 0;
+        else if (tp < 0)
+            fld = 1;
+        else if (tp >= NHP)
+            fld = 4;
+        else {
+            size_t last = n;
+            for (size_t k = n; k > (size_t)(c - s) + 1; k--)
+                if (s[k - 1] == ':') { last = k - 1; break; }
+            fld = (last < n && i > last) ? 3 : 2;
+        }
+        char *t = tags[w - WS][fld];
+        if (!t[0])
+            snprintf(t, sizeof tags[0][0], "whitespace=%s/field=%s", WSN[w - WS], FLD[fld]);
+        return t;
+    }
+    return NULL;
+}
+
 /* the verdict on "s is an address of transport tp" */
 static void m_parse(int tp, const char *s, size_t n, struct mres *r)
 {
     memset(r, 0, sizeof *r);
     r->port = -1;
     r->hp = tp < NHP;
+    const char *wst = m_whitespace(tp, s, n);
+    if (wst) { r->v = V_REJECT; r->tag = wst; return; }
     const char *c = memchr(s, ':', n);
     if (!c) { r->v = V_REJECT; r->tag = "proto=missing"; return; }
     size_t pl = (size_t)(c - s);
@@ -1412,7 +1455,9 @@ static void judge_proto(const char *s, size_t n, size_t cap, const struct pres *
     size_t pl = c ? (size_t)(c - s) : 0;
     enum verdict v;
     const char *tag = NULL;
-    if (!c) { v = V_REJECT; tag = "proto=missing"; }
+    const char *wst = m_whitespace(-1, s, n);
+    if (wst) { v = V_REJECT; tag = wst; }
+    else if (!c) { v = V_REJECT; tag = "proto=missing"; }
     else if (pl + 1 > cap) { v = V_REJECT; tag = "capacity-too-small"; }
     else if (known_valid) v = V_ACCEPT;
     else { v = V_EITHER; tag = "rest-not-a-valid-address"; }
@@ -1535,6 +1580,23 @@ static void check_string(const char *s, size_t n, bool dup, const struct origin 
     memset(&p, 0, sizeof p);
     p.rc = valid ? 0 : -1;
     p.err = 0;
+    {
+        const char *wst = m_whitespace(own, in, n);
+        /* (when a typed parser accepted the string too, that parser's finding already says it) */
+        if (wst && (valid || supported) && !any_ok) {
+            char sig[160];
+            struct tb t = { 0 }, one = { 0 };
+            snprintf(sig, sizeof sig, "C12/is_valid-accepts/%s", wst);
+            tb_f(&t, "%s(", valid ? "xcm_addr_is_valid" : "xcm_addr_is_supported");
+            tb_cstr(&t, in, n);
+            tb_f(&t, ") = true although the string contains white space (%s): an address is a single "
+                 "token, no documented form contains blanks or line breaks", wst);
+            one_parse(&one, in, n);
+            finding(sig, &t, &one);
+            free(t.p);
+            free(one.p);
+        }
+    }
     if (valid != any_ok) {
         char sig[160];
         int which = -1;
@@ -1597,6 +1659,15 @@ static void check_string(const char *s, size_t n, bool dup, const struct origin 
         else
             maybe_sample(3, "compat", f, in, n, want ? V_ACCEPT : V_REJECT,
                          want ? "same as primary parser: accept" : "primary parser rejects or host not representable", &p);
+        if (p.rc == 0) {
+            const char *wst = m_whitespace(f->tp, in, n);
+            if (wst) {
+                char sig[160];
+                snprintf(sig, sizeof sig, "C12/parse-accepts/%s", wst);
+                parse_finding(sig, f, in, n, &p, "the string contains white space (%s); an address is a "
+                              "single token, no documented form contains blanks or line breaks", wst);
+            }
+        }
         bool same = (p.rc == 0) == want;
         if (same && want) {
             if (k < 7)
@@ -2339,6 +2410,53 @@ static void fam_misc(void)
         Sf("%c", b);
         Sf("%c:", b);
         Sf(":%c", b);
+    }
+    /* white space: each of the six characters x every transport x every position class (in front
+     * of / inside / at the end of the transport name, directly behind the prefix, start / middle /
+     * end of the host, of the port and of the UX/UXF name, and as the only character of a field) */
+    {
+        static const char WS6[] = " \t\n\v\f\r";
+        static const char *const WH[][3] = {      /* host split into head + tail, and the sole form */
+            { "10.9", ".8.6" }, { "[::", "1]" }, { "h1.ex", "ample" }, { "*", "" }, { "[*", "]" },
+        };
+        static const char *const WN[][2] = { { "my", "service" }, { "/run/app", "/sock" }, { "a", ":b" } };
+        for (int t = 0; t < NT; t++) {
+            const char *tn = tp_name[t];
+            const char *rest = t < NHP ? "10.9.8.6:4711" : "myservice";
+            for (int w = 0; w < 6; w++) {
+                char c = WS6[w];
+                Sf("%c%s:%s", c, tn, rest);
+                Sf("%c%s%c%s:%s", tn[0], "", c, tn + 1, rest);
+                Sf("%s%c:%s", tn, c, rest);
+                Sf("%s:%c%s", tn, c, rest);
+                Sf("%s:%s%c", tn, rest, c);
+                Sf("%s:%c", tn, c);
+                Sf("%s%c", tn, c);
+                Sf("%c%s", c, tn);
+                if (t < NHP) {
+                    for (size_t h = 0; h < sizeof WH / sizeof WH[0]; h++) {
+                        Sf("%s:%c%s%s:4711", tn, c, WH[h][0], WH[h][1]);        /* host start */
+                        Sf("%s:%s%c%s:4711", tn, WH[h][0], c, WH[h][1]);        /* host middle */
+                        Sf("%s:%s%s%c:4711", tn, WH[h][0], WH[h][1], c);        /* host end */
+                        Sf("%s:%s%s:%c4711", tn, WH[h][0], WH[h][1], c);        /* port start */
+                        Sf("%s:%s%s:47%c11", tn, WH[h][0], WH[h][1], c);        /* port middle */
+                        Sf("%s:%s%s:4711%c", tn, WH[h][0], WH[h][1], c);        /* port end */
+                        Sf("%s:%s%s:%c", tn, WH[h][0], WH[h][1], c);            /* port = the character */
+                        Sf("%s:%s%s:0%c", tn, WH[h][0], WH[h][1], c);
+                    }
+                    Sf("%s:%c:4711", tn, c);                                    /* host = the character */
+                    Sf("%s:%c:%c", tn, c, c);
+                } else {
+                    for (size_t k = 0; k < sizeof WN / sizeof WN[0]; k++) {
+                        Sf("%s:%c%s%s", tn, c, WN[k][0], WN[k][1]);             /* name start */
+                        Sf("%s:%s%c%s", tn, WN[k][0], c, WN[k][1]);             /* name middle */
+                        Sf("%s:%s%s%c", tn, WN[k][0], WN[k][1], c);             /* name end */
+                    }
+                    Sf("%s:%s%c", tn, rep('m', 106), c);                        /* at the length limit */
+                    Sf("%s:%c%s", tn, c, rep('m', 106));
+                }
+            }
+        }
     }
     /* ux/uxf names around the 107-byte limit and with structure of their own */
     static const size_t ULENS[] = { 0, 1, 2, 3, 105, 106, 107, 108, 109, 110, 200, 511, 512, 513, 574 };
